@@ -17,6 +17,9 @@ func (c *vfCtx) Done() <-chan struct{}             { return c.done }
 func (c *vfCtx) Err() error                        { return nil }
 func (c *vfCtx) Value(key interface{}) interface{} { return nil }
 
+// vfErrStream is what a broken stream reports. The client's own context is never cancelled before
+// the end of a run, so whatever the error says the client has to retry - also when the failure
+// carries the "cancelled" error of some other context (a proxy or the peer reset the stream).
 var vfErrStream = errors.New("vf: stream broken")
 
 // vfStream is one generation of the discovery stream: it tracks the set of services subscribed on
@@ -77,6 +80,10 @@ func (s *vfStream) Recv() error {
 // current dependency set.
 func VfC16_Subscriptions() {
 	nd.ConcreteClock(true)
+	vfErrStream = errors.New("vf: stream broken")
+	if nd.Param("cancelerr", 0) == 1 {
+		vfErrStream = context.Canceled // stream failures report a cancelled context (not the client's own)
+	}
 	qcap := nd.Param("qcap", 2)
 	ctx := &vfCtx{done: make(chan struct{})}
 	var streams []*vfStream
